@@ -223,9 +223,11 @@ func (w c08word) describe() any {
 //		2 started WITHOUT a password; a client then issued CONFIG SET requirepass c08pass
 //		3 started with c08old; an authorized client then issued CONFIG SET requirepass c08pass (no restart)
 //	  4 started with c08old; after a first AUTH had run, the APPLICATION called SetRequirePass(c08pass) (no restart)
-func c08mode(idx int) int { return (idx / c08chunk) % 5 }
+//	  5 freshly started with c08pass; after a first AUTH had run, the APPLICATION called ClearAuthenticators() (to
+//	    replace its own authenticators): the configuration still requires the password
+func c08mode(idx int) int { return (idx / c08chunk) % 6 }
 
-var c08modeName = []string{"freshly-started", "password-changed-across-restart", "password-set-at-run-time-by-CONFIG-SET", "password-changed-at-run-time-by-CONFIG-SET", "password-changed-at-run-time-by-SetRequirePass"}
+var c08modeName = []string{"freshly-started", "password-changed-across-restart", "password-set-at-run-time-by-CONFIG-SET", "password-changed-at-run-time-by-CONFIG-SET", "password-changed-at-run-time-by-SetRequirePass", "authenticators-cleared-at-run-time"}
 
 const c08chunk = 400
 
@@ -234,7 +236,7 @@ func c08server(idx int) *redis.Server {
 		srv := redis.NewServer()
 		mode := c08mode(idx)
 		switch mode {
-		case 0:
+		case 0, 5:
 			srv.SetRequirePass(c08pass)
 		case 1, 3, 4:
 			srv.SetRequirePass(c08old)
@@ -266,6 +268,12 @@ func c08server(idx int) *redis.Server {
 			stream, ends := encodeReqs(reqs)
 			runPipe(srv, reqs, chunkAt(stream, ends), sconn.Script{End: sconn.EOF})
 			srv.SetRequirePass(c08pass)
+		case 5:
+			srv.SetCommandHandler(double.NewRec())
+			reqs := []resp.Value{resp.Cmd("AUTH", "not-the-password"), resp.Cmd("AUTH", c08pass), resp.Cmd("PING")}
+			stream, ends := encodeReqs(reqs)
+			runPipe(srv, reqs, chunkAt(stream, ends), sconn.Script{End: sconn.EOF})
+			srv.ClearAuthenticators()
 		case 2, 3:
 			srv.SetCommandHandler(double.NewRec())
 			var reqs []resp.Value
@@ -460,7 +468,7 @@ func init() {
 		ID: "C08", Level: "exploration",
 		Rule: func(tier string) string {
 			l1 := map[string]int{"quick": 3, "thorough": 4}[tier]
-			return fmt.Sprintf("case = one word of requests over 1..3 lock-step scripted connections (hook H1) on a server with SetRequirePass(%q) after Start() on a loopback port - batches of 400 cases rotate over five ways the server came to require that password (the fifth: the application calls SetRequirePass on the running server after AUTHs have already been handled): freshly started with it; started with another password, stopped, reconfigured and started again; started without a password and then told CONFIG SET requirepass by a client; started with another password and then told CONFIG SET requirepass by an authorized client, without a restart (the previous password is one more wrong candidate of the dictionary); in every fourth case the odd connections carry a TLS connection state, as connections of the TLS port do; the driver delivers one request to one chosen connection and waits for its reply, so an interleaving is a word over (connection, request). Alphabet (1 connection): AUTH with each candidate of a dictionary around the password ('', null bulk, every strict prefix, password+suffix, +NUL, NUL+, case variants, CRLF inside/after, leading space, the password), AUTH with 0 and 3 arguments, two-argument forms (4 user names x wrong passwords, wrong user + right password, ''/default + right password) and 8 data commands; ALL words of length <=%d on 1 connection, ALL words of length <=4 on 2 connections and <=3 on 3 connections over the reduced alphabet {AUTH P, AUTH '', AUTH prefix, GET, PING} x connection index; then seeded random words up to length 30. Monitor = per-connection shadow automaton {unauth,auth}; violations: a handler call or non-error reply to a non-AUTH request on an unauth connection, a wrong AUTH answered non-error, the exact one-argument AUTH not answered +OK, an authorized connection refused after a failed AUTH, authorization leaking between connections. distinct = the word; non-trivial = length >= 2", c08pass, l1)
+			return fmt.Sprintf("case = one word of requests over 1..3 lock-step scripted connections (hook H1) on a server with SetRequirePass(%q) after Start() on a loopback port - batches of 400 cases rotate over six ways the server came to require that password (the fifth: the application calls SetRequirePass on the running server after AUTHs have already been handled; the sixth: the application calls ClearAuthenticators() on the running server, the configuration still requiring the password): freshly started with it; started with another password, stopped, reconfigured and started again; started without a password and then told CONFIG SET requirepass by a client; started with another password and then told CONFIG SET requirepass by an authorized client, without a restart (the previous password is one more wrong candidate of the dictionary); in every fourth case the odd connections carry a TLS connection state, as connections of the TLS port do; the driver delivers one request to one chosen connection and waits for its reply, so an interleaving is a word over (connection, request). Alphabet (1 connection): AUTH with each candidate of a dictionary around the password ('', null bulk, every strict prefix, password+suffix, +NUL, NUL+, case variants, CRLF inside/after, leading space, the password), AUTH with 0 and 3 arguments, two-argument forms (4 user names x wrong passwords, wrong user + right password, ''/default + right password) and 8 data commands; ALL words of length <=%d on 1 connection, ALL words of length <=4 on 2 connections and <=3 on 3 connections over the reduced alphabet {AUTH P, AUTH '', AUTH prefix, GET, PING} x connection index; then seeded random words up to length 30. Monitor = per-connection shadow automaton {unauth,auth}; violations: a handler call or non-error reply to a non-AUTH request on an unauth connection, a wrong AUTH answered non-error, the exact one-argument AUTH not answered +OK, an authorized connection refused after a failed AUTH, authorization leaking between connections. distinct = the word; non-trivial = length >= 2", c08pass, l1)
 		},
 		Exhaustive:  func(string) bool { return false },
 		Assumptions: []string{"AUTH <''|default> <password> may be accepted or refused (the statement does not fix the configured user name); the shadow follows the reply", "QUIT before authentication is not generated"},
